@@ -6,7 +6,7 @@ script.  Oracles: whole-string and sub-range accept/reject = model; idempotence;
 what the accepted / rejected text renders to.
 """
 import os, subprocess, re
-from lib import core, drv as D, build
+from lib import core, drv as D, build, clibatch
 
 ID = 'C12'
 OPEN = dict(add='{++', dele='{--', hi='{==', com='{>>', sub='{~~')
@@ -211,6 +211,9 @@ def work(job):
                     if rc1 == 0 and rc2 == 0 and o1 != o2:
                         r.violate('cli-%s:%s' % (name, fmt), 'multimarkdown %s -t %s differs from rendering the %sed text' % ('-a' if accept else '-r', fmt, name),
                                   dict(stdin_b64=core.b64(src), edited_b64=core.b64(exp), fmt=fmt), 'with flag: %s\nedited   : %s' % (core.show(o1[-400:], 400), core.show(o2[-400:], 400)))
+            if i % 60 == 0:
+                # the same pre-pass must run for every file of a batch (-b), not only for the first
+                clibatch.batch_vs_single(r, cli, rng, {'critic'} | ({'title'} if rng.random() < 0.5 else set()), [['-a'], ['-r'], ['-a'], ['-r'], []], keyprefix='cli-batch-critic-differs')
             kinds = set()
 
             def walk(ns, d):
